@@ -9,6 +9,7 @@ package rules
 
 import (
 	"fmt"
+	"go/constant"
 	"go/token"
 	"go/types"
 	"strings"
@@ -130,10 +131,17 @@ func stickyWriterClosed(fn *ssa.Function, cc *ssa.CallCommon) bool {
 // connection is dropped) and nothing proceeds as if the call had succeeded. A
 // dropped error that is followed by further protocol steps is not covered.
 func (c *Ctx) lastActionBeforeGivingUp(fn *ssa.Function, call *ssa.Call) bool {
-	return c.nothingFollows(fn, call, 0)
+	return c.nothingFollows(fn, call, 0, nil)
 }
 
-func (c *Ctx) nothingFollows(fn *ssa.Function, call ssa.CallInstruction, depth int) bool {
+// retFlag: the helper that was just left handed back the constant val as its result idx on every
+// path behind the notice ("ok = false"): in the caller only the branch that this value selects runs.
+type retFlag struct {
+	idx int
+	val bool
+}
+
+func (c *Ctx) nothingFollows(fn *ssa.Function, call ssa.CallInstruction, depth int, flag *retFlag) bool {
 	if hasErrorResult(fn) || depth > 2 {
 		return false // it could have been reported
 	}
@@ -189,8 +197,41 @@ func (c *Ctx) nothingFollows(fn *ssa.Function, call ssa.CallInstruction, depth i
 			return false
 		}
 	}
+	// the successors that can run, given what the callee is known to have returned
+	succsOf := func(x *ssa.BasicBlock) []*ssa.BasicBlock {
+		if flag == nil || len(x.Succs) != 2 {
+			return x.Succs
+		}
+		iff, ok := x.Instrs[len(x.Instrs)-1].(*ssa.If)
+		if !ok {
+			return x.Succs
+		}
+		cond, neg := iff.Cond, false
+		if u, ok := cond.(*ssa.UnOp); ok && u.Op == token.NOT {
+			cond, neg = u.X, true
+		}
+		cv, _ := call.(ssa.Value)
+		isFlag := false
+		if ex, ok := cond.(*ssa.Extract); ok && cv != nil && ex.Tuple == cv && ex.Index == flag.idx {
+			isFlag = true
+		}
+		if cv != nil && cond == cv && flag.idx == 0 {
+			isFlag = true
+		}
+		if !isFlag {
+			return x.Succs
+		}
+		if flag.val != neg {
+			return x.Succs[:1]
+		}
+		return x.Succs[1:]
+	}
 	seen := map[*ssa.BasicBlock]bool{}
-	st := append([]*ssa.BasicBlock(nil), b.Succs...)
+	st := append([]*ssa.BasicBlock(nil), succsOf(b)...)
+	var rets []*ssa.Return
+	if r, ok := b.Instrs[len(b.Instrs)-1].(*ssa.Return); ok {
+		rets = append(rets, r)
+	}
 	for len(st) > 0 {
 		x := st[len(st)-1]
 		st = st[:len(st)-1]
@@ -206,7 +247,34 @@ func (c *Ctx) nothingFollows(fn *ssa.Function, call ssa.CallInstruction, depth i
 				return false
 			}
 		}
-		st = append(st, x.Succs...)
+		if r, ok := x.Instrs[len(x.Instrs)-1].(*ssa.Return); ok {
+			rets = append(rets, r)
+		}
+		st = append(st, succsOf(x)...)
+	}
+	// what the function hands back on these paths: a constant boolean result tells the caller's branch
+	var out *retFlag
+	for i := 0; i < fn.Signature.Results().Len(); i++ {
+		if bt, ok := fn.Signature.Results().At(i).Type().Underlying().(*types.Basic); !ok || bt.Kind() != types.Bool {
+			continue
+		}
+		same, first := true, true
+		val := false
+		for _, r := range rets {
+			k, ok := r.Results[i].(*ssa.Const)
+			if !ok || k.Value == nil || k.Value.Kind() != constant.Bool {
+				same = false
+				break
+			}
+			if first {
+				val, first = constant.BoolVal(k.Value), false
+			} else if constant.BoolVal(k.Value) != val {
+				same = false
+			}
+		}
+		if same && !first {
+			out = &retFlag{idx: i, val: val}
+		}
 	}
 	// a helper (rejectLogin) returns to its callers: nothing may follow there either
 	if obj := fn.Object(); fn.Parent() == nil && (obj == nil || !obj.Exported()) {
@@ -215,7 +283,7 @@ func (c *Ctx) nothingFollows(fn *ssa.Function, call ssa.CallInstruction, depth i
 				if e.Site == nil || e.Caller == nil || e.Caller.Func == nil || !c.P.InModule(e.Caller.Func) {
 					continue
 				}
-				if !c.nothingFollows(e.Caller.Func, e.Site, depth+1) {
+				if !c.nothingFollows(e.Caller.Func, e.Site, depth+1, out) {
 					return false
 				}
 			}
